@@ -222,7 +222,7 @@ pub fn run_item(e: End, code: Code, v: u64, out: &mut Outcome) {
 
 pub fn c10(ctx: &Ctx) -> (CheckMeta, Outcome) {
     let mut tasks: Vec<Task> = vec![];
-    let dense = if ctx.thorough { 4096 } else { 256 };
+    let dense = if ctx.thorough { 65536 } else { 4096 };
     for e in End::BOTH {
         for code in all_disp_codes() {
             let seed = ctx.seed;
@@ -272,7 +272,7 @@ pub fn c10(ctx: &Ctx) -> (CheckMeta, Outcome) {
     let meta = CheckMeta {
         property: "C10".into(),
         level: "exploration".into(),
-        rule: "complete over identifiers: every code named by the 51 code_consts (all aliases) and every Codes variant with parameters 0..=12 plus {17,31,32,63} / large Golomb moduli, x every dispatcher kind (Codes dynamic+static, FuncCodeWriter/Reader, FactoryFuncCodeReader::new().get(), ConstCode<ID> with ID taken from the constant's NAME, CodesStatsWrapper around Codes / Func* / ConstCode, Codes::len, FuncCodeLen, ConstCode::len) x {write, read, len} x both endiannesses x values (dense below 256 (thorough 4096), every 2^i+-2, step points, maxima); oracle: bytes and returned length written via the dispatcher = those of the direct trait method (PRE bits, codeword, POST bits); value and end position read via the dispatcher = direct method; len = direct len; a dispatcher whose constructor refuses the code is skipped (Err, never another code); evaluations = (code, value, E) items, transitions = dispatcher calls compared; non-trivial = value > 0 of a code that has an identifier constant".into(),
+        rule: "complete over identifiers: every code named by the 51 code_consts (all aliases) and every Codes variant with parameters 0..=12 plus {17,31,32,63} / large Golomb moduli, x every dispatcher kind (Codes dynamic+static, FuncCodeWriter/Reader, FactoryFuncCodeReader::new().get(), ConstCode<ID> with ID taken from the constant's NAME, CodesStatsWrapper around Codes / Func* / ConstCode, Codes::len, FuncCodeLen, ConstCode::len) x {write, read, len} x both endiannesses x values (dense below 4096 (thorough 65536), every 2^i+-2, step points, maxima); oracle: bytes and returned length written via the dispatcher = those of the direct trait method (PRE bits, codeword, POST bits); value and end position read via the dispatcher = direct method; len = direct len; a dispatcher whose constructor refuses the code is skipped (Err, never another code); evaluations = (code, value, E) items, transitions = dispatcher calls compared; non-trivial = value > 0 of a code that has an identifier constant".into(),
         assumptions: vec!["the direct trait methods are the specification here (their own correctness is C03/C04/C06)".into()],
     };
     (meta, out)
